@@ -5,6 +5,15 @@ import itertools, re, sqlite3
 
 SCHEMA = {'t': ('a', 'b'), 'u': ('a', 'c')}
 VALUES = (None, 0, 1, 2)
+# string values with characters that matter to literal rendering (standard SQL: only ' is special, doubled)
+STR_VALUES = ('C:\\data\\a.csv', "it's", '100%', 'a_b', 'x\ny', '\u00e9\u6f22', '%', '_', '', '"q"', '--x', ':p', '%s', '%(x)s',
+              'tab\there', 'a;b', 'C:\\data\\%', "''", 'a\\nb', '1')
+
+
+def strlit(v):
+    return "'" + v.replace("'", "''") + "'"
+
+
 JOIN_SPELLINGS = ('JOIN', 'INNER JOIN', 'LEFT JOIN', 'LEFT OUTER JOIN', 'RIGHT JOIN', 'RIGHT OUTER JOIN',
                   'FULL JOIN', 'FULL OUTER JOIN', 'CROSS JOIN')
 
@@ -29,6 +38,10 @@ def fixed_dbs():
         {'t': ((1, 1), (1, 1)), 'u': ((1, 2), (1, 2))},
         {'t': ((0, 2), (2, 0), (1, 1)), 'u': ((2, None), (0, 0), (0, 1))},
         {'t': ((2, 1), (0, None), (None, None)), 'u': ((1, 1), (2, 2), (None, 0))},
+        # text values (the columns have INTEGER affinity, which keeps non-numeric text as text)
+        {'t': (('C:\\data\\a.csv', 1), ("it's", 2)), 'u': (('100%', 'a_b'), ('x\ny', None))},
+        {'t': (('\u00e9\u6f22', '%'), ('_', '')), 'u': (('C:\\data\\a.csv', '"q"'), ("it's", "it's"))},
+        {'t': ((':p', '%s'), ('a\\nb', 'C:\\data\\%')), 'u': (('%(x)s', '--x'), ("''", 'tab\there'))},
     ]
 
 
@@ -185,9 +198,30 @@ class Gen:
     def __init__(self, rng):
         self.rng = rng
         self.feats = set()
+        self.strs = set()
 
     def f(self, tag):
         self.feats.add(tag)
+
+    def sval(self):
+        """a string literal; the value is recorded so that the harness can tell a parser decoding problem (C04) apart"""
+        v = self.rng.choice(STR_VALUES)
+        self.strs.add(v)
+        self.f('strlit')
+        return strlit(v)
+
+    def str_pred(self, cols):
+        rng = self.rng
+        c = rng.choice(cols)
+        k = rng.random()
+        if k < 0.4:
+            return '%s %s %s' % (c, rng.choice(('=', '<>', '!=', '<', '>=')), self.sval())
+        if k < 0.65:
+            self.f('op:LIKE')
+            return '%s %s %s' % (c, rng.choice(('LIKE', 'NOT LIKE')), self.sval())
+        if k < 0.85:
+            return '%s %s (%s)' % (c, rng.choice(('IN', 'NOT IN')), ', '.join(self.sval() for _ in range(rng.randint(2, 3))))
+        return '%s = %s' % (self.sval(), c)
 
     # ---- expressions over the columns in scope
     ARITH = ('+', '-', '*', '/', '%')
@@ -209,6 +243,8 @@ class Gen:
         r = rng.random()
         p = lambda s: '(' + s + ')' if rng.random() < 0.45 else s
         if boolean:
+            if cols and rng.random() < 0.07:
+                return self.str_pred(cols)
             if r < 0.22:
                 op = rng.choice(('AND', 'OR'))
                 self.f('op:' + op)
@@ -377,6 +413,8 @@ class Gen:
             else:
                 for _ in range(rng.randint(1, 3)):
                     targets.append(self.expr(cols, rng.randint(0, depth), rng.random() < 0.25))
+                if rng.random() < 0.08:
+                    targets.append(self.sval())
             if windowed:
                 self.f('window')
                 fn = rng.choice(('row_number()', 'rank()', 'sum(%s)' % rng.choice(cols), 'count(*)', 'max(%s)' % rng.choice(cols)))
@@ -474,21 +512,22 @@ class Gen:
                 use = list(reversed(use))
             rows = []
             for _ in range(rng.randint(1, 3)):
-                rows.append('(%s)' % ', '.join(rng.choice(('0', '1', '2', 'NULL', '-1', "'x'", "'it''s'", '1.5')) for _ in use))
+                rows.append('(%s)' % ', '.join(self.sval() if rng.random() < 0.35 else
+                                               rng.choice(('0', '1', '2', 'NULL', '-1', "'x'", '1.5')) for _ in use))
             return 'INSERT INTO %s (%s) VALUES %s' % (tb, ', '.join(use), ', '.join(rows))
         if k == 'insert-select':
             return 'INSERT INTO %s (%s) %s' % (tb, ', '.join(cols), self.simple_select(1, ncols=2))
         if k == 'update':
-            sets = ', '.join('%s = %s' % (c, self.expr(cols, rng.randint(0, 2), False, sub=False))
+            sets = ', '.join('%s = %s' % (c, self.sval() if rng.random() < 0.3 else self.expr(cols, rng.randint(0, 2), False, sub=False))
                              for c in rng.sample(cols, rng.randint(1, 2)))
             s = 'UPDATE %s SET %s' % (tb, sets)
             if rng.random() < 0.7:
-                s += ' WHERE ' + self.expr(cols, rng.randint(1, 2), True)
+                s += ' WHERE ' + (self.str_pred(cols) if rng.random() < 0.3 else self.expr(cols, rng.randint(1, 2), True))
             return s
         if k == 'delete':
             s = 'DELETE FROM %s' % tb
             if rng.random() < 0.8:
-                s += ' WHERE ' + self.expr(cols, rng.randint(1, 2), True)
+                s += ' WHERE ' + (self.str_pred(cols) if rng.random() < 0.3 else self.expr(cols, rng.randint(1, 2), True))
             return s
         if k == 'create':
             tys = ('INT', 'INTEGER', 'TEXT', 'VARCHAR', 'FLOAT', 'BOOLEAN', 'DATE')
@@ -499,6 +538,7 @@ class Gen:
     def statement(self):
         """returns dict(kind, text, ordered, alias, feats)"""
         self.feats = set()
+        self.strs = set()
         self.order_keys = None
         r = self.rng.random()
         if r < 0.66:
@@ -513,4 +553,4 @@ class Gen:
         else:
             text, ordered, alias, kind = self.dml(), False, [], 'dml'
         return dict(kind=kind, text=text, ordered=ordered, alias=alias, feats=sorted(self.feats),
-                    order_keys=self.order_keys if kind == 'select' and ordered else None)
+                    order_keys=self.order_keys if kind == 'select' and ordered else None, strs=sorted(self.strs))
